@@ -1,18 +1,316 @@
 /-
   C05  Command dispatcher conforms to a sequential FTP session model.
-  `Model.Session.step` is the reference model; these theorems state that the reference is a sane FTP
-  session for all states and commands.  Conformance of the code to it is the correspondence run.
+
+  `Model.Session.step` is the sequential reference model (guard stacks regenerated from the live
+  decorators).  The theorems below say that the reference is a sane FTP session, for all states, trees and
+  command lines; where the pinned code is NOT sane the negation is proved on a witness and the `_partial`
+  theorem says what does hold.  That the code conforms to the reference is the correspondence run.
 -/
-import AioftpModel.Model.Session
+import AioftpModel.Lemmas.Session
 
 namespace C05
 open Model Model.Session Py Generated
 
-/-- an unsupported verb gets 502 and changes nothing -/
-theorem unknown_502 (cfg : Cfg) (w : World) (s : SState) (raw : Str) (payload : Bytes)
-    (hs : s.alive = true) (h : verbOf (parseCommand raw).1 = none) :
-    step cfg w s (.line raw payload) = (w, s, { replies := [502] }) := by
-  unfold step step0
-  simp only [h, hs, if_true]
+def isMark (c : Nat) : Bool := 100 ≤ c && c < 200
+def marks (l : List Nat) : List Nat := l.filter isMark
+def finals (l : List Nat) : List Nat := l.filter (fun c => !isMark c)
+
+def transferVerbs : List Verb := [.retr, .stor, .appe, .list, .mlsd]
+
+/-- **unknown_502**: an unsupported verb gets 502 and changes nothing at all -/
+theorem unknown_502 (cfg : Cfg) (w : World) (s : SState) (name rest : Str) (payload : Bytes)
+    (h : verbOf name = none) :
+    dispatch cfg w s name rest payload = (w, s, { replies := [502] }) := by
+  unfold dispatch; rw [h]
+
+/-- table obligations (re-decided whenever the decorators in the source change) -/
+theorem guards_wellformed (v : Verb) : v.guards.all guardOk = true := guards_wellformed_b v (all_verbs v)
+theorem login_first (v : Verb) : loginFirst v.guards = true := login_first_b v (all_verbs v)
+
+/-- PASS runs its body only with a pending user; RNTO only with a pending rename -/
+theorem pass_needs_user : Verb.pass.guards = [.conn [.user] false 503] := by decide
+theorem rnto_needs_rnfr : ∃ t, Verb.rnto.guards = .conn [.logged, .renameFrom] false 503 :: t := ⟨_, rfl⟩
+
+/-- **crash_only_rest** (characterises finding F1): from an invariant state, the only way a command is
+    left without any reply is `REST` with an argument that `str.isdigit()` accepts and `int()` rejects. -/
+theorem crash_only_rest (cfg : Cfg) (w : World) (s : SState) (name rest : Str) (payload : Bytes)
+    (hinv : Inv cfg s) (hc : (dispatch cfg w s name rest payload).2.2.crashed = true) :
+    verbOf name = some .rest ∧ isDigit rest = true ∧ intOfDigits? rest = none := by
+  unfold dispatch at hc
+  cases hv : verbOf name with
+  | none => simp [hv] at hc
+  | some v =>
+    simp only [hv] at hc
+    unfold runVerb at hc
+    have hinv' := hinv.resetRestart name
+    generalize resetRestart name s = s0 at hc hinv'
+    cases hg : runGuards cfg w s0 (argOf s0 v rest) v.guards with
+    | fail c => simp [hg] at hc
+    | silent => simp [hg] at hc
+    | crash => exact absurd hg (runGuards_no_crash cfg w s0 _ hinv' _ (login_first v))
+    | pass =>
+      simp only [hg] at hc
+      cases v with
+      | rest =>
+        refine ⟨rfl, ?_⟩
+        simp only [body] at hc
+        split at hc
+        · rename_i hd
+          split at hc
+          · simp at hc
+          · rename_i hn; exact ⟨hd, hn⟩
+        · simp at hc
+      | pass =>
+        exfalso
+        have hu : s0.user.isSome = true := by
+          have := runGuards_pass_first_conn (t := []) (by rw [← pass_needs_user]; exact hg) Field.user (by simp)
+          simpa [fieldSet] using this
+        obtain ⟨i, hi⟩ := Option.isSome_iff_exists.mp hu
+        obtain ⟨u, hu'⟩ := Option.isSome_iff_exists.mp (hinv'.2 i hi)
+        simp only [body] at hc
+        split at hc
+        · simp at hc
+        · simp only [hi, Option.bind, hu'] at hc
+          split at hc <;> simp at hc
+      | rnto =>
+        exfalso
+        obtain ⟨t, ht⟩ := rnto_needs_rnfr
+        have hr : s0.renameFrom.isSome = true := by
+          have := runGuards_pass_first_conn (by rw [← ht]; exact hg) Field.renameFrom (by simp)
+          simpa [fieldSet] using this
+        obtain ⟨src, hsrc⟩ := Option.isSome_iff_exists.mp hr
+        simp [body, hsrc] at hc
+      | user => simp [body] at hc
+      | quit => simp [body] at hc
+      | pwd => simp [body] at hc
+      | cwd => simp [body] at hc
+      | cdup => simp [body] at hc
+      | mkd => simp only [body] at hc; split at hc <;> simp at hc
+      | rmd => simp only [body] at hc; split at hc <;> simp at hc
+      | dele => simp only [body] at hc; split at hc <;> simp at hc
+      | mlst => simp [body] at hc
+      | rnfr => simp [body] at hc
+      | list => simp only [body, worker] at hc; split at hc <;> simp at hc
+      | mlsd => simp only [body, worker] at hc; split at hc <;> simp at hc
+      | retr =>
+        simp only [body, worker] at hc
+        split at hc
+        · simp at hc
+        · split at hc <;> simp at hc
+      | stor =>
+        simp only [body, worker] at hc
+        split at hc
+        · split at hc
+          · simp at hc
+          · split at hc <;> simp at hc
+        · simp at hc
+      | appe =>
+        simp only [body, worker] at hc
+        split at hc
+        · split at hc
+          · simp at hc
+          · split at hc <;> simp at hc
+        · simp at hc
+      | type => simp [body] at hc
+      | pbsz => simp [body] at hc
+      | prot => simp [body] at hc
+      | pasv => simp only [body] at hc; split at hc <;> simp at hc
+      | epsv => simp only [body] at hc; split at hc <;> simp at hc
+      | abor => simp [body] at hc
+      | syst => simp [body] at hc
+
+/-- F1 witness: `REST ²` (superscript two) is answered by nothing and ends the session -/
+theorem rest_superscript_crashes :
+    let r := step ⟨[], none, false⟩ ⟨[], none, []⟩ {} (.line ['R', 'E', 'S', 'T', ' ', '²'] [])
+    r.2.2.crashed = true ∧ r.2.2.replies = [] ∧ r.2.1.alive = false := by
+  decide
+
+theorem getUser_code (cfg : Cfg) (w : World) (login : Str) :
+    (getUser cfg w login).1 = 530 ∨ (getUser cfg w login).1 = 230 ∨ (getUser cfg w login).1 = 331 := by
+  unfold getUser
+  (repeat' split) <;> simp
+
+/-- replies of a body that ran: exactly one final reply, at most one mark, a mark only for transfers -/
+theorem body_reply_shape (cfg : Cfg) (w : World) (s : SState) (v : Verb) (rest : Str) (arg : PPath)
+    (payload : Bytes) (hc : (body cfg w s v rest arg payload).2.2.crashed = false) :
+    let o := (body cfg w s v rest arg payload).2.2
+    (finals o.replies).length = 1 ∧ (marks o.replies).length ≤ 1 ∧
+    (marks o.replies ≠ [] → v ∈ transferVerbs) := by
+  cases v
+  case user =>
+    have key : ∀ w' : World,
+        (finals [(getUser cfg w' rest).1]).length = 1 ∧ (marks [(getUser cfg w' rest).1]).length ≤ 1 ∧
+        (marks [(getUser cfg w' rest).1] ≠ [] → Verb.user ∈ transferVerbs) := by
+      intro w'
+      rcases getUser_code cfg w' rest with h | h | h <;> rw [h] <;> simp [finals, marks, isMark]
+    simp only [body]
+    exact key _
+  all_goals
+    simp only [body, worker] at hc ⊢ <;> (repeat' split) <;>
+      simp_all [finals, marks, isMark, transferVerbs]
+
+/-- **one_final_reply.**  Every command that is answered at all gets exactly one final reply, preceded by
+    at most one 1xx mark, and a mark only for a transfer verb. -/
+theorem one_final_reply (cfg : Cfg) (w : World) (s : SState) (name rest : Str) (payload : Bytes)
+    (hc : (dispatch cfg w s name rest payload).2.2.crashed = false) :
+    let o := (dispatch cfg w s name rest payload).2.2
+    (finals o.replies).length = 1 ∧ (marks o.replies).length ≤ 1 ∧
+    (marks o.replies ≠ [] → ∃ v, verbOf name = some v ∧ v ∈ transferVerbs) := by
+  simp only
+  unfold dispatch at hc ⊢
+  cases hv : verbOf name with
+  | none => simp [finals, marks, isMark]
+  | some v =>
+    simp only [hv] at hc ⊢
+    unfold runVerb at hc ⊢
+    generalize resetRestart name s = s0 at hc ⊢
+    cases hg : runGuards cfg w s0 (argOf s0 v rest) v.guards with
+    | fail c =>
+      rcases runGuards_fail_code cfg w s0 _ _ (guards_wellformed v) c hg with rfl | rfl <;>
+        simp [finals, marks, isMark]
+    | silent => exact absurd hg (runGuards_not_silent cfg w s0 _ _ (guards_wellformed v))
+    | crash => simp [hg] at hc
+    | pass =>
+      simp only [hg] at hc ⊢
+      obtain ⟨h1, h2, h3⟩ := body_reply_shape cfg w s0 v rest _ payload hc
+      exact ⟨h1, h2, fun hm => ⟨v, rfl, h3 hm⟩⟩
+
+/-- **out_of_sequence_503**: a command whose stack starts with a `ConnectionConditions` naming a field
+    the session does not have is answered 503 and changes nothing but the restart offset. -/
+theorem out_of_sequence_503 (cfg : Cfg) (w : World) (s : SState) (name rest : Str) (payload : Bytes)
+    (v : Verb) (hv : verbOf name = some v) (fs : List Field) (wt : Bool) (t : List Guard)
+    (hg : v.guards = .conn fs wt 503 :: t) (f : Field) (hf : f ∈ fs) (hmiss : fieldSet s f = false) :
+    dispatch cfg w s name rest payload = (w, resetRestart name s, { replies := [503] }) := by
+  unfold dispatch
+  simp only [hv]
+  unfold runVerb
+  rw [hg, runGuards_cons]
+  rcases runGuard_conn_cases cfg w (resetRestart name s) (argOf (resetRestart name s) v rest) fs wt 503
+    with ⟨_, hall⟩ | h
+  · have := hall f hf
+    cases f <;> simp [fieldSet] at this hmiss <;> simp_all
+  · rw [h]
+
+/-- instances: transfer without PASV/EPSV, RNTO without RNFR, PASS without USER -/
+example : ∃ t, Verb.retr.guards = .conn [.logged, .passiveServer] false 503 :: t := ⟨_, rfl⟩
+example : ∃ t, Verb.stor.guards = .conn [.logged, .passiveServer] false 503 :: t := ⟨_, rfl⟩
+example : ∃ t, Verb.list.guards = .conn [.logged, .passiveServer] false 503 :: t := ⟨_, rfl⟩
+
+/-- **session_ends_only_after.**  The model ends a session by itself only after one of these replies
+    (or the F1 crash): 221 to QUIT, 522 to EPSV-with-argument, 503 to PASV on an IPv6 listener. -/
+theorem session_ends_only_after (cfg : Cfg) (w : World) (s : SState) (name rest : Str) (payload : Bytes)
+    (ha : s.alive = true) (hd : (dispatch cfg w s name rest payload).2.1.alive = false)
+    (hc : (dispatch cfg w s name rest payload).2.2.crashed = false) :
+    let o := (dispatch cfg w s name rest payload).2.2
+    (verbOf name = some .quit ∧ o.replies = [221]) ∨
+    (verbOf name = some .epsv ∧ rest ≠ [] ∧ o.replies = [522]) ∨
+    (verbOf name = some .pasv ∧ cfg.ipv6 = true ∧ o.replies = [503]) := by
+  simp only
+  unfold dispatch at hd hc ⊢
+  cases hv : verbOf name with
+  | none => simp [hv, ha] at hd
+  | some v =>
+    simp only [hv] at hd hc ⊢
+    unfold runVerb at hd hc ⊢
+    have ha' : (resetRestart name s).alive = true := by simpa using ha
+    generalize resetRestart name s = s0 at hd hc ha' ⊢
+    cases hg : runGuards cfg w s0 (argOf s0 v rest) v.guards with
+    | fail c => simp [hg, ha'] at hd
+    | silent => simp [hg, ha'] at hd
+    | crash => simp [hg] at hc
+    | pass =>
+      simp only [hg] at hd hc ⊢
+      cases v <;> simp only [body, worker] at hd hc ⊢ <;> (repeat' split at hd) <;>
+        simp_all
+
+/-- the set of replies after which a handler returns False, as the translator found it in the source -/
+theorem closing_codes_table :
+    (Verb.all.filter (fun v => !v.closingCodes.isEmpty)).map (fun v => (v.name, v.closingCodes)) =
+      [("epsv", [421, 522]), ("pasv", [421, 503]), ("quit", [221])] := by decide
+
+/-! ### restart offset: scope -/
+
+/-- **rest_scope_partial**: every known verb outside the dispatcher's keep-set, other than REST itself,
+    leaves the restart offset at 0 — whatever it was before. -/
+theorem rest_scope_partial (cfg : Cfg) (w : World) (s : SState) (name rest : Str) (payload : Bytes)
+    (v : Verb) (hv : verbOf name = some v) (hk : keepsRestart name = false) (hr : v ≠ .rest) :
+    (dispatch cfg w s name rest payload).2.1.restartOffset = 0 := by
+  unfold dispatch
+  simp only [hv]
+  unfold runVerb
+  have h0 : (resetRestart name s).restartOffset = 0 := by simp [resetRestart, hk]
+  generalize resetRestart name s = s0 at h0 ⊢
+  cases hg : runGuards cfg w s0 (argOf s0 v rest) v.guards with
+  | fail c => simpa using h0
+  | silent => simpa using h0
+  | crash => simpa using h0
+  | pass =>
+    simp only []
+    cases v <;> simp only [body, worker] <;> (repeat' split) <;> simp_all
+
+theorem restart_keep_table : restartKeep = ["retr", "stor", "appe"] := by decide
+
+/-- **rest_survives_transfer** (finding F2, negation of the full `rest_scope`): after `REST 3`, a completed
+    `RETR` leaves the offset at 3, so the next transfer starts at 3 as well. -/
+theorem rest_survives_transfer :
+    let cfg : Cfg := ⟨[⟨none, none, ⟨1, []⟩, [], none⟩], none, false⟩
+    let w : World := ⟨[(["f".toList], .file [1, 2, 3, 4, 5])], none, [none]⟩
+    let s : SState := { user := some 0, logged := true, passive := true, dataConn := true, restartOffset := 3 }
+    let r1 := step cfg w s (.line "RETR f".toList [])
+    let s1 := { r1.2.1 with dataConn := true }
+    let r2 := step cfg r1.1 s1 (.line "RETR f".toList [])
+    r1.2.2.data = [4, 5] ∧ r1.2.1.restartOffset = 3 ∧ r2.2.2.data = [4, 5] := by
+  decide
+
+/-- … and it survives an unknown verb and a refused transfer too -/
+theorem rest_survives_unknown_verb (cfg : Cfg) (w : World) (s : SState) (name rest : Str) (payload : Bytes)
+    (h : verbOf name = none) :
+    (dispatch cfg w s name rest payload).2.1.restartOffset = s.restartOffset := by
+  rw [unknown_502 cfg w s name rest payload h]
+
+/-! ### pairing and re-login -/
+
+/-- a successful RNTO consumes the pending rename -/
+theorem rnto_consumes_rename (cfg : Cfg) (w : World) (s : SState) (rest : Str) (arg : PPath)
+    (payload : Bytes) (src : Path) (h : s.renameFrom = some src) :
+    (body cfg w s .rnto rest arg payload).2.1.renameFrom = none := by
+  simp [body, h]
+
+/-- USER re-homes the session: the working directory after a successful USER is that user's home -/
+theorem relogin_resets_cwd (cfg : Cfg) (w : World) (s : SState) (rest : Str) (arg : PPath)
+    (payload : Bytes) (i : Nat) (u : UserCfg)
+    (h : (body cfg w s .user rest arg payload).2.1.user = some i) (hu : cfg.users[i]? = some u) :
+    (body cfg w s .user rest arg payload).2.1.cwd = u.home := by
+  simp only [body] at h ⊢
+  simp only [h, hu, Option.map, Option.getD]
+
+/-- PASV/EPSV let go of a parked data connection -/
+theorem pasv_drops_parked_data (cfg : Cfg) (w : World) (s : SState) (rest : Str) (arg : PPath)
+    (payload : Bytes) : (body cfg w s .epsv rest arg payload).2.1.dataConn = false ∨
+      (body cfg w s .epsv rest arg payload).2.1.alive = false := by
+  simp only [body]; split <;> simp
+
+/-! ### non-vacuity -/
+
+example : Inv ⟨[⟨none, none, ⟨1, []⟩, [], none⟩], none, false⟩
+    { user := some 0, logged := true } := by
+  constructor
+  · intro _; rfl
+  · intro i hi; simp at hi; subst hi; rfl
+
+/-- a non-trivial session: login, MKD, CWD, STOR with payload, RETR from an offset -/
+example :
+    let cfg : Cfg := ⟨[⟨some "bob".toList, none, ⟨1, []⟩, [], none⟩], none, false⟩
+    let w0 : World := ⟨[], none, [none]⟩
+    let (w1, s1, o1) := step cfg w0 {} (.line "USER bob".toList [])
+    let (w2, s2, o2) := step cfg w1 s1 (.line "MKD a/b".toList [])
+    let (w3, s3, o3) := step cfg w2 s2 (.line "CWD a/../a/b".toList [])
+    let (w4, s4, _) := step cfg w3 s3 (.line "EPSV".toList [])
+    let (w5, s5, _) := step cfg w4 s4 .dataConnect
+    let (w6, _, o6) := step cfg w5 s5 (.line "STOR f".toList [7, 8, 9])
+    o1.replies = [230] ∧ o2.replies = [257] ∧ o3.replies = [250] ∧
+    s3.cwd = ⟨1, ["a".toList, "b".toList]⟩ ∧ o6.replies = [150, 226] ∧
+    w6.fs.lookup ["a".toList, "b".toList, "f".toList] = some (.file [7, 8, 9]) := by
+  decide
 
 end C05
